@@ -6,9 +6,11 @@ import (
 )
 
 // runSketch (C18): one task. Task 0 holds the recording program:
-//   cap n   - ensureCapacity(n)
-//   inc k   - record key k (N times)
-//   admit   - admission decisions on a fresh policy whose sketch is fed to chosen frequencies
+//
+//	cap n   - ensureCapacity(n)
+//	inc k   - record key k (N times)
+//	admit   - admission decisions on a fresh policy whose sketch is fed to chosen frequencies
+//
 // Hash seeds come from the run's hash stream (HashMode 1: adversarial, heavy collisions).
 func (cr *compRun) runSketch() {
 	cc := cr.cc
